@@ -684,9 +684,11 @@ def _get_reference_activated_flow_instance(
         # Check if it is not a reference instance
         if (
             activated_flow.activated == 0
-            or activated_flow.parent_uid not in state.flow_states
+            or activated_flow.parent_uid is None
             or (
-                activated_flow.parent_uid
+                # (the flow that activated it first can already be removed from the state,
+                # see _clean_up_state and _is_reference_activated_flow)
+                activated_flow.parent_uid in state.flow_states
                 and activated_flow.flow_id
                 == state.flow_states[activated_flow.parent_uid].flow_id
             )
